@@ -11,6 +11,16 @@ DISPLAY = "impl/src/fmt/display.rs"
 DEBUG = "impl/src/fmt/debug.rs"
 
 
+def formatter_name(ctx, rel):
+    """name of the formatter parameter the generated `fn fmt(&self, <name>: &mut ..Formatter<'_>)` declares (role, not spelling)"""
+    for fn in A.functions(ctx.files[rel]):
+        for t in T.templates_of(fn):
+            m = re.search(r"fnfmt\(&self,(\w+):&mutderive_more::core::fmt::Formatter<'_>\)", T.ir_text(t.ir).replace(" ", ""))
+            if m:
+                return m.group(1)
+    raise A.AnchorLost(f"{rel}", "generated `fn fmt(&self, <f>: &mut Formatter)` not found")
+
+
 def struct_fields(ctx, rel, name):
     it = A.get_item(ctx.files, rel, "Item::Struct", name)
     flds = it["fields"]
@@ -240,7 +250,8 @@ def rule_tpl_verb(ctx):
         where = f"{t.file.rel}:{t.file.line(grp['span'][0])}"
         idx = 0
         if mac == "write":
-            if not (parts and len(parts[0]) == 1 and parts[0][0]["t"] == "id" and parts[0][0]["s"] == "__derive_more_f"):
+            fname = formatter_name(ctx, t.file.rel if t.file.rel != MOD else DISPLAY)
+            if not (parts and len(parts[0]) == 1 and parts[0][0]["t"] == "id" and parts[0][0]["s"] == fname):
                 ctx.report(f"{t.key()}:{mac}:formatter", where, "write! is not given the impl's own formatter parameter first", {})
             idx = 1
         if idx >= len(parts) or len(parts[idx]) != 1 or parts[idx][0]["t"] != "var":
@@ -459,7 +470,8 @@ def rule_transparent_siblings(ctx):
                 + ": a bare-placeholder attribute is expanded through write!, which drops the caller's width/precision/flags, or the transparency decision is filtered by an extra condition",
                 {"conditions": conds},
             )
-        extra = [c for c, br in conds if "transparent_call" not in c and c not in ("shared_attr_is_wrapping", "wrap_into_shared_attr")]
+        rl = _shared_roles(t.fn)
+        extra = [c for c, br in conds if "transparent_call" not in c and A.canon_names(c, rl) not in ("WRAPPING", "MIX_SHARED")]
         extra = [c for c in extra if not c.startswith("let Some(")]
         if extra:
             ctx.report(construct + ":extra-condition", f"{t.file.rel}:{t.line}", f"the write!/delegate choice for `#{attr}` in `{t.fn.qual}` additionally depends on {extra}", {})
@@ -470,14 +482,15 @@ def rule_transparent_siblings(ctx):
         for fn in A.functions(ctx.files[rel]):
             for t in T.templates_of(fn):
                 tx = T.ir_text(t.ir).replace(" ", "")
-                if "::fmt(" in tx and "__derive_more_f)" in tx and "write!" not in tx and "implderive" not in tx.replace("#impl_gens", "").replace("impl#", "impl"):
+                fname = formatter_name(ctx, rel)
+                if "::fmt(" in tx and (fname + ")") in tx and "write!" not in tx and "implderive" not in tx.replace("#impl_gens", "").replace("impl#", "impl"):
                     if tx.startswith("#"):
                         continue
                     if "fnfmt(" in tx:
                         continue
                     m += 1
                     ctx.instance(f"{t.key()}:delegate", sample=tx)
-                    if not re.fullmatch(r"derive_more::core::fmt::#(\w+)::fmt\(#(\w+),__derive_more_f\)", tx):
+                    if not re.fullmatch(r"derive_more::core::fmt::#(\w+)::fmt\(#(\w+),%s\)" % re.escape(fname), tx):
                         ctx.report(f"{t.key()}:delegate-shape", f"{rel}:{t.line}", f"delegation in `{fn.qual}` is `{tx}`, expected `derive_more::core::fmt::#trait::fmt(#expr, __derive_more_f)`", {})
     ctx.floor("delegation templates", m, 4)
 
@@ -750,6 +763,25 @@ def _arm_decisions(fn, scrut_contains):
     return out
 
 
+def _shared_roles(fn):
+    """{local name: role} for the two flags destructured from `self.shared_attr_info()` and for the local that
+    receives the per-arm 'mix the shared attribute in' decision"""
+    roles = {}
+    for st, _ in A.find(fn.block, "Stmt::Local"):
+        init = st.get("init")
+        if not init:
+            continue
+        r = A.render(init["expr"])
+        if r == "self.shared_attr_info()" and A.kind(st["pat"]) == "Pat::Tuple":
+            names = [A.render_pat(x) for x in st["pat"]["elems"]]
+            if len(names) == 2:
+                roles[names[0]] = "HAS_SHARED"
+                roles[names[1]] = "WRAPPING"
+        elif A.kind(init["expr"]) == "Expr::Match" and "self.attrs.common.fmt" in A.render(init["expr"]["expr"]) and A.kind(st["pat"]) == "Pat::Ident":
+            roles[st["pat"]["ident"]["sym"]] = "MIX_SHARED"
+    return roles
+
+
 def rule_shared_decision(ctx):
     """SHARED-SIB: `generate_body` and `generate_bounds` of the Display-like Expansion take the same decisions from `shared_attr_info()`: with an own attribute -> wrap iff the shared attribute is wrapping; without -> generate the implicit body/bound iff `shared_attr_is_wrapping || !has_shared_attr`, and mix the shared attribute in iff `has_shared_attr`. A body that formats a field the bounds ignore (or vice versa) fails to compile or over-constrains."""
     gb = A.get_fn(ctx.files, DISPLAY, "Expansion::generate_body")
@@ -758,10 +790,16 @@ def rule_shared_decision(ctx):
     db = _arm_decisions(gn, "self.attrs.common.fmt")
     if set(da) != {"Some", "None"} or set(db) != {"Some", "None"}:
         raise A.AnchorLost(f"{DISPLAY}::Expansion::generate_body/generate_bounds", f"arms {list(da)} / {list(db)}")
-    REF = {"Some": ([], "shared_attr_is_wrapping"), "None": (["shared_attr_is_wrapping||!has_shared_attr"], "has_shared_attr")}
+    REF = {"Some": ([], "WRAPPING"), "None": (["WRAPPING||!HAS_SHARED"], "HAS_SHARED")}
+    roles = {gb.qual: _shared_roles(gb), gn.qual: _shared_roles(gn)}
+    for q in roles:
+        if set(roles[q].values()) < {"HAS_SHARED", "WRAPPING"}:
+            raise A.AnchorLost(f"{DISPLAY}::{q}", "`let (has_shared, is_wrapping) = self.shared_attr_info()`")
     for arm in ("Some", "None"):
         for q, d in ((gb.qual, da), (gn.qual, db)):
             conds, tail = d[arm]
+            conds = [A.canon_names(c, roles[q]) for c in conds]
+            tail = A.canon_names(tail, roles[q]) if tail else tail
             ctx.instance(f"{q}:{arm}", sample={"fn": q, "arm": arm, "conditions": conds, "mix_shared": tail})
             rc, rt = REF[arm]
             # the Some arm of generate_body has its own if-chain (wrapping / transparent / write!) judged elsewhere
@@ -771,7 +809,7 @@ def rule_shared_decision(ctx):
                 ctx.report(f"shared:{q}:{arm}:mix", ctx.where(gb.file, (gb if q == gb.qual else gn).node), f"`{q}` mixes the shared attribute in iff `{tail}` (arm {arm}); expected `{rt}`", {})
     # shared_attr_info
     si = A.get_fn(ctx.files, DISPLAY, "Expansion::shared_attr_info")
-    txt = ";".join(A.render_stmt(s) for s in si.block["stmts"])
+    txt = A.fn_text(si)
     ctx.instance("shared_attr_info", sample=txt[:400])
     want = [
         'self.shared_attr.map_or(true,|attr|attr.contains_arg("_variant"))',
@@ -795,7 +833,7 @@ def rule_shared_decision(ctx):
     for x, ps in A.walk(gb.block):
         if A.kind(x) == "Expr::If" and A.render(x["cond"]).startswith("let Some(rename_all)=") and "convert_case" in A.render(x["then_branch"]["stmts"][0]["0"]) if A.kind(x) == "Expr::If" and x["then_branch"]["stmts"] and A.kind(x["then_branch"]["stmts"][0]) == "Stmt::Expr" else False:
             enclosing = [A.render(p["cond"]) for p in ps if A.kind(p) == "Expr::If"]
-            if not any("shared_attr_is_wrapping" == c for c in enclosing):
+            if not any(A.canon_names(c, roles[gb.qual]) == "WRAPPING" for c in enclosing):
                 ok = True
     ctx.instance("rename-before-split")
     if not ok:
